@@ -1,3 +1,4 @@
+import HqModel.Props.C03Restart
 import HqModel.Lemmas.CoreSteps
 /-!
 # C03 — dependencies: never start early; failure/cancel propagates
@@ -7,7 +8,7 @@ Proved here (M1): a new task whose number of unfinished dependencies is positive
 task together with its outcome (`C01.c01_core_forgets`). That every `ComputeTasks` names only tasks whose
 dependencies all finished, and that all transitive dependents of a failed/cancelled task are aborted and never
 started, is evaluated on every real trace by the monitors `c03.no_early_start` / `c03.propagate`; the global
-invariant `DepInv` is not yet a theorem (`c03_*_partial`). Restart clause: component `journal`.
+invariant `DepInv` is not yet a theorem (`c03_*_partial`). Restart clause: `c03_restart` (Props/C03Restart.lean, component `journal`).
 -/
 namespace HqModel.C03
 open HqModel.Core
